@@ -30,14 +30,15 @@ pub fn build_pass_1(
     let mut data_offset = device.ram_start;
     let mut eeprom_offset = 0;
     for segment in parsed.segments {
-        let offset = match segment.t {
-            SegmentType::Code => code_offset,
-            SegmentType::Data => data_offset,
-            SegmentType::Eeprom => eeprom_offset,
+        // running offset and capacity (end address) of the memory the segment goes to
+        let (offset, limit) = match segment.t {
+            SegmentType::Code => (code_offset, device.flash_size),
+            SegmentType::Data => (data_offset, device.ram_start + device.ram_size),
+            SegmentType::Eeprom => (eeprom_offset, device.eeprom_size),
         };
 
         let (current_end_offset, current_offset, items) =
-            pass_1_internal(&segment, offset, common_context)?;
+            pass_1_internal(&segment, offset, limit, common_context)?;
         segments.push(Segment {
             items,
             t: segment.t,
@@ -69,6 +70,7 @@ pub fn build_pass_1(
 fn pass_1_internal(
     segment: &Segment,
     address: u32,
+    limit: u32,
     common_context: &CommonContext,
 ) -> Result<(u32, u32, Vec<(CodePoint, Item)>), Error> {
     let current_offset = if segment.address == 0 {
@@ -81,19 +83,28 @@ fn pass_1_internal(
     };
 
     let mut out_items = vec![];
-    let mut cur_address = current_offset;
+    // wide enough for any sum of item sizes
+    let mut cur_address = current_offset as u64;
 
     for (line, item) in &segment.items {
+        // stop before anything is emitted beyond the end of the device's memory
+        if cur_address > limit as u64 {
+            bail!(
+                "{} segment overdue the memory of the device, {}",
+                segment.t,
+                line
+            );
+        }
         match item {
             Item::Label(name) => {
-                if let Some(_) = common_context.set_label(name.clone(), (segment.t, cur_address)) {
+                if let Some(_) = common_context.set_label(name.clone(), (segment.t, cur_address as u32)) {
                     // TODO: add display current string of mistake and previous location
                     bail!("Identifier {} is used twice, {}", name, line);
                 }
             }
             Item::Instruction(op, _) => match segment.t {
                 SegmentType::Code => {
-                    cur_address += op.info(common_context).len;
+                    cur_address += op.info(common_context).len as u64;
                     out_items.push((*line, item.clone()));
                 }
                 _ => bail!(
@@ -116,10 +127,10 @@ fn pass_1_internal(
                                 items.actual_len()
                             } else {
                                 items.actual_len()
-                            }) as u32
+                            }) as u64
                                 / 2
                         }
-                        SegmentType::Eeprom => items.actual_len() as u32,
+                        SegmentType::Eeprom => items.actual_len() as u64,
                         _ => bail!(".db are not allowed in data segment, {}", line),
                     };
 
@@ -133,8 +144,8 @@ fn pass_1_internal(
                         _ => 0,
                     };
                     cur_address += match segment.t {
-                        SegmentType::Code => items.len() as u32 * (item_size / 2),
-                        SegmentType::Eeprom => items.len() as u32 * item_size,
+                        SegmentType::Code => items.len() as u64 * (item_size / 2),
+                        SegmentType::Eeprom => items.len() as u64 * item_size,
                         _ => bail!(".dw are not allowed in data segment, {}", line),
                     };
 
@@ -143,7 +154,10 @@ fn pass_1_internal(
             },
             Item::ReserveData(size) => match segment.t {
                 SegmentType::Data | SegmentType::Eeprom => {
-                    cur_address += *size as u32;
+                    if *size < 0 || *size > std::u32::MAX as i64 {
+                        bail!("size {} is out of range for .byte, {}", size, line);
+                    }
+                    cur_address += *size as u64;
                     if segment.t == SegmentType::Eeprom {
                         out_items.push((*line, item.clone()));
                     }
@@ -154,7 +168,11 @@ fn pass_1_internal(
         }
     }
 
-    Ok((cur_address, current_offset, out_items))
+    if cur_address > limit as u64 {
+        bail!("{} segment overdue the memory of the device", segment.t);
+    }
+
+    Ok((cur_address as u32, current_offset, out_items))
 }
 
 #[cfg(test)]
